@@ -446,14 +446,33 @@ impl World<'_> {
         Ok(())
     }
 
-    async fn do_write(&mut self, data: Arc<Vec<u8>>, inner: Option<Arc<Vec<u8>>>, class: Class, mode: u8) -> Result<(), Fail> {
+    async fn do_write(&mut self, data: Arc<Vec<u8>>, inner: Option<Arc<Vec<u8>>>, class: Class, mode: u8, key_style: u8) -> Result<(), Fail> {
         let sys = self.sys.name();
         let key_n = payload::ekey_n(&data);
         let mode = match self.sys {
             Sys::Container => 0,
             _ => mode,
         };
-        match self.sut.write(&key_n, &data, mode).await {
+        // DynamicContainer::write files the entry under the encoding key it computes itself and
+        // ignores the caller's `key` argument (the crate's own callers pass content keys): the
+        // argument is therefore varied — true encoding key, content key MD5(data), unrelated key —
+        // while the model stays keyed by the encoding key.
+        let key_arg = match (self.sys, key_style % 3) {
+            (Sys::Container, 1) => {
+                self.fl.class("write-key-arg:content-key");
+                vh_engine::refimpl::md5::md5(&data)
+            }
+            (Sys::Container, 2) => {
+                self.fl.class("write-key-arg:unrelated");
+                let mut k = key_n;
+                for (i, b) in k.iter_mut().enumerate() {
+                    *b = b.wrapping_mul(31).wrapping_add(i as u8 ^ 0x5a);
+                }
+                k
+            }
+            _ => key_n,
+        };
+        match self.sut.write(&key_arg, &data, mode).await {
             Err(_) => {
                 // the statement speaks about writes that succeeded
                 self.fl.class("write-error");
@@ -573,7 +592,7 @@ fn run_case(c: &Case, known: &Known) -> Verdict {
                     if c.sys == Sys::Archive {
                         w.fl.class(["mode:N", "mode:Z", "mode:4"][(*mode % 3) as usize]);
                     }
-                    w.do_write(data, inner, *class, *mode).await?;
+                    w.do_write(data, inner, *class, *mode, (*seed >> 7) as u8).await?;
                 }
                 Op::Rewrite(ix) => {
                     if !w.objs.is_empty() {
@@ -584,7 +603,7 @@ fn run_case(c: &Case, known: &Known) -> Verdict {
                         } else {
                             w.fl.class("rewrite-same-content");
                         }
-                        w.do_write(data, inner, class, 0).await?;
+                        w.do_write(data, inner, class, 0, 0).await?;
                     }
                 }
                 Op::Read(ix) | Op::Query(ix) => {
